@@ -23,7 +23,8 @@
 (***************************************************************************)
 EXTENDS WebChars
 
-CONSTANTS RootName,   \* name of the scratch directory /tmp/<name> containing the root, as the set {1000 * i + c_i}
+CONSTANTS SideW, SideN,  \* names of the two copies' directories, encoded like RootName ({1083} = placeholder "S")
+          RootName,   \* name of the scratch directory /tmp/<name> containing the root, as the set {1000 * i + c_i}
                       \* (cfg files cannot hold sequences); {1080} is the placeholder name "P" of generated paths
           GenToks,    \* token names the generator builds paths from
           PathLen,    \* max tokens per generated path
@@ -38,10 +39,13 @@ VARIABLES cfg,   \* [dflt, outside]
 
 vars == <<cfg, n, lead>>
 
-(* the directory containing the root: /tmp/P, where the harness substitutes the name of its
-   scratch directory for the placeholder name P in generated paths; recorded traces carry the real names *)
+(* The root is /tmp/<scratch>/<side>/r: the harness keeps two copies of the tree in one scratch
+   directory, side "w" with and side "n" without the files outside the root.  Generated paths use
+   the placeholder names P (scratch) and S (side), which the harness substitutes; recorded traces
+   carry the real names (constants RootName, SideW, SideN of the trace run). *)
 NameOf(S) == [i \in 1..Cardinality(S) |-> (CHOOSE x \in S : x \div 1000 = i) % 1000]
-RootP == <<<<116, 109, 112>>, NameOf(RootName)>>
+RootPW == <<<<116, 109, 112>>, NameOf(RootName), NameOf(SideW)>>
+RootPN == <<<<116, 109, 112>>, NameOf(RootName), NameOf(SideN)>>
 
 N_r == <<114>>
 N_r2 == <<114, 50>>
@@ -53,27 +57,36 @@ N_o == <<111>>
 N_sub == <<115, 117, 98>>
 N_index == <<105, 110, 100, 101, 120, 46, 104, 116, 109, 108>>
 
-Root == RootP \o <<N_r>>
-
 (* the file system: absolute segment paths -> file id (its size); directories *)
 InFiles == {<<<<N_a>>, 11>>, <<<<N_index>>, 14>>, <<<<N_sub, N_index>>, 12>>, <<<<N_sub, N_b>>, 13>>}
 InDirs == {<<>>, <<N_sub>>, <<N_d>>}
-OutFilesAll == {<<RootP \o <<N_o>>, 21>>, <<RootP \o <<N_r2, N_a>>, 22>>,
-                <<RootP \o <<N_rx, N_index>>, 23>>}
-AboveDirs == {SubSeq(RootP, 1, k) : k \in 0..Len(RootP)}
-OutDirsAll == {RootP \o <<N_r2>>, RootP \o <<N_rx>>}
-InFilesAbs == {<<Root \o f[1], f[2]>> : f \in InFiles}
-InDirsAbs == {Root \o d : d \in InDirs}
-FilesWith == InFilesAbs \cup OutFilesAll
-DirsWith == InDirsAbs \cup AboveDirs \cup OutDirsAll
-DirsWithout == InDirsAbs \cup AboveDirs
-Files(c) == IF c.outside THEN FilesWith ELSE InFilesAbs
-Dirs(c) == IF c.outside THEN DirsWith ELSE DirsWithout
 InsideIds == {f[2] : f \in InFiles}
+OutFilesOf(rp) == {<<rp \o <<N_o>>, 21>>, <<rp \o <<N_r2, N_a>>, 22>>, <<rp \o <<N_rx, N_index>>, 23>>}
+AboveDirsOf(rp) == {SubSeq(rp, 1, k) : k \in 0..Len(rp)}
+OutDirsOf(rp) == {rp \o <<N_r2>>, rp \o <<N_rx>>}
+InFilesOf(rp) == {<<rp \o <<N_r>> \o f[1], f[2]>> : f \in InFiles}
+InDirsOf(rp) == {rp \o <<N_r>> \o d : d \in InDirs}
+(* constant-level tables, evaluated once *)
+RootW == RootPW \o <<N_r>>
+RootN == RootPN \o <<N_r>>
+FilesW1 == InFilesOf(RootPW) \cup OutFilesOf(RootPW)
+FilesW0 == InFilesOf(RootPW)
+FilesN1 == InFilesOf(RootPN) \cup OutFilesOf(RootPN)
+FilesN0 == InFilesOf(RootPN)
+DirsW1 == InDirsOf(RootPW) \cup AboveDirsOf(RootPW) \cup OutDirsOf(RootPW)
+DirsW0 == InDirsOf(RootPW) \cup AboveDirsOf(RootPW)
+DirsN1 == InDirsOf(RootPN) \cup AboveDirsOf(RootPN) \cup OutDirsOf(RootPN)
+DirsN0 == InDirsOf(RootPN) \cup AboveDirsOf(RootPN)
 
-IsDir(c, p) == p \in Dirs(c)
-IsFile(c, p) == \E f \in Files(c) : f[1] = p
-FileId(c, p) == (CHOOSE f \in Files(c) : f[1] = p)[2]
+RootP(c) == IF c.outside THEN RootPW ELSE RootPN
+Root(c) == IF c.outside THEN RootW ELSE RootN
+(* pr: the files outside the root are present (in the real trees: exactly on side w) *)
+Files(c, pr) == IF c.outside THEN (IF pr THEN FilesW1 ELSE FilesW0) ELSE (IF pr THEN FilesN1 ELSE FilesN0)
+Dirs(c, pr) == IF c.outside THEN (IF pr THEN DirsW1 ELSE DirsW0) ELSE (IF pr THEN DirsN1 ELSE DirsN0)
+
+IsDir(c, pr, p) == p \in Dirs(c, pr)
+IsFile(c, pr, p) == \E f \in Files(c, pr) : f[1] = p
+FileId(c, pr, p) == (CHOOSE f \in Files(c, pr) : f[1] = p)[2]
 
 (* os.path.normpath on the segments of an absolute path *)
 Norm(segs) ==
@@ -88,11 +101,11 @@ Target(c, raw) ==
         isabs == Len(d) > 0 /\ d[1] = SLASH
         segs == Split(d, SLASH)
     IN [lead |-> IF isabs /\ Leading(d, SLASH) = 2 THEN 2 ELSE 1,
-        segs |-> Norm(IF isabs THEN segs ELSE Root \o segs)]
+        segs |-> Norm(IF isabs THEN segs ELSE Root(c) \o segs)]
 
 (* the path as a string, as os.path.abspath returns it *)
 Render(t) == (IF t.lead = 2 THEN <<SLASH, SLASH>> ELSE <<SLASH>>) \o Join(t.segs, SLASH)
-RootStr(c) == <<SLASH>> \o Join(Root, SLASH)
+RootStr(c) == <<SLASH>> \o Join(Root(c), SLASH)
 
 (* the design's containment test: (abspath + "/").startswith(root + "/") *)
 DesignInside(c, t) ==
@@ -100,40 +113,44 @@ DesignInside(c, t) ==
     ELSE StartsWith(Render(t), RootStr(c))
 
 (* the property's notion: whole segments *)
-SegInside(c, t) == t.lead = 1 /\ IsPrefix(Root, t.segs)
+SegInside(c, t) == t.lead = 1 /\ IsPrefix(Root(c), t.segs)
 
 Deny == [kind |-> "deny", file |-> 0]
 
 (* request.path ends with "/" (the route prefix "/static/" itself ends with one) *)
 Trailing(raw) == raw = <<>> \/ raw[Len(raw)] = SLASH
 
-Respond(c, raw) ==
+RespondP(c, pr, raw) ==
     LET t == Target(c, raw) IN
     IF ~DesignInside(c, t) THEN Deny
-    ELSE IF t.lead = 1 /\ IsDir(c, t.segs) /\ c.dflt
+    ELSE IF t.lead = 1 /\ IsDir(c, pr, t.segs) /\ c.dflt
       THEN IF ~Trailing(raw) THEN [kind |-> "redirect", file |-> 0]
-           ELSE IF IsFile(c, t.segs \o <<N_index>>)
-                  THEN [kind |-> "serve", file |-> FileId(c, t.segs \o <<N_index>>)]
+           ELSE IF IsFile(c, pr, t.segs \o <<N_index>>)
+                  THEN [kind |-> "serve", file |-> FileId(c, pr, t.segs \o <<N_index>>)]
                   ELSE Deny
-    ELSE IF t.lead = 1 /\ IsFile(c, t.segs) THEN [kind |-> "serve", file |-> FileId(c, t.segs)]
+    ELSE IF t.lead = 1 /\ IsFile(c, pr, t.segs) THEN [kind |-> "serve", file |-> FileId(c, pr, t.segs)]
     ELSE Deny
+Respond(c, raw) == RespondP(c, c.outside, raw)
 
 ----------------------------------------------------------------------------
 (* generator tokens: name -> raw units *)
 E(c) == 256 + c
-AbsRootTok == Concat([i \in 1..Len(Root) |-> <<E(SLASH)>> \o Root[i]])   \* %2Ftmp%2F...%2Fr
-Tok ==
+AbsTok(segs) == Concat([i \in 1..Len(segs) |-> <<E(SLASH)>> \o segs[i]])   \* %2Ftmp%2F...%2Fr
+TokOf(rp) ==
     "a" :> N_a @@ "sub" :> N_sub @@ "b" :> N_b @@ "d" :> N_d @@ "index" :> N_index
     @@ "empty" :> <<>> @@ "dot" :> <<DOT>> @@ "dotdot" :> <<DOT, DOT>>
     @@ "r" :> N_r @@ "r2" :> N_r2 @@ "rx" :> N_rx @@ "o" :> N_o
     @@ "pdotdot" :> <<E(DOT), E(DOT)>> @@ "mixdotdot" :> <<DOT, 512 + DOT>>
     @@ "pslash" :> <<E(SLASH)>> @@ "ddslashdd" :> <<DOT, DOT, E(SLASH), DOT, DOT>>
     @@ "nul" :> <<E(0)>> @@ "anul" :> <<97, E(0)>> @@ "nula" :> <<E(0), 97>>
-    @@ "bsdd" :> <<DOT, DOT, E(BSLASH)>> @@ "absroot" :> AbsRootTok
-    @@ "absr2" :> Concat([i \in 1..Len(RootP) |-> <<E(SLASH)>> \o RootP[i]]) \o <<E(SLASH)>> \o N_r2
+    @@ "bsdd" :> <<DOT, DOT, E(BSLASH)>> @@ "absroot" :> AbsTok(rp \o <<N_r>>)
+    @@ "absr2" :> AbsTok(rp \o <<N_r2>>)
     @@ "dots3" :> <<DOT, DOT, DOT>>
+TokW == TokOf(RootPW)
+TokN == TokOf(RootPN)
+Tok(c) == IF c.outside THEN TokW ELSE TokN
 
-RawOf(toks) == Join([i \in 1..Len(toks) |-> Tok[toks[i]]], SLASH)
+RawOf(c, toks) == Join([i \in 1..Len(toks) |-> Tok(c)[toks[i]]], SLASH)
 
 Proj == step.exp
 Obs(a, args, c) == [act |-> a, args |-> args, exp |-> Respond(c, args[2])]
@@ -156,7 +173,7 @@ Request(m, raw) ==
 Next == /\ n < MaxReq
         /\ \E m \in {"GET", "HEAD"} :
              IF lead = "none" THEN Request(m, <<>>)
-             ELSE \E rest \in BoundedSeq(GenToks, PathLen - 1) : Request(m, RawOf(<<lead>> \o rest))
+             ELSE \E rest \in BoundedSeq(GenToks, PathLen - 1) : Request(m, RawOf(cfg, <<lead>> \o rest))
 
 Spec == InitState /\ [][Next]_<<vars, step>>
 
@@ -170,8 +187,7 @@ Confined == Req /\ step.exp.kind \in {"serve", "redirect"} => SegInside(cfg, Req
 (* only files under the root are ever served *)
 ServesRootFilesOnly == Req /\ step.exp.kind = "serve" => step.exp.file \in InsideIds
 (* nothing outside the root influences the response (existence is not revealed) *)
-NonInterference == Req => Respond([cfg EXCEPT !.outside = TRUE], step.args[2])
-                          = Respond([cfg EXCEPT !.outside = FALSE], step.args[2])
+NonInterference == Req => RespondP(cfg, TRUE, step.args[2]) = RespondP(cfg, FALSE, step.args[2])
 (* the design's string test agrees with segment containment *)
 DesignIsSegmentwise == Req => (DesignInside(cfg, ReqT) <=> SegInside(cfg, ReqT))
 (* functional part: every file under the root is reachable by its plain relative path *)
